@@ -10,14 +10,14 @@ package memstore
 //@ func (*Store).Has(ctx, key) (r, err)
 //@   requires store != nil
 //@   assigns nothing
-//@   ensures[C17] err == nil && r == indom(store.Bag, key)
+//@   ensures[C05,C17] err == nil && r == indom(store.Bag, key)
 
 //@ func (*Store).Put(ctx, key, content) (err)
 //@   requires store != nil
 //@   assigns store.Bag, map(store.Bag)
-//@   ensures[C17] err == nil && indom(store.Bag, key)
-//@   ensures[C17] !old(indom(store.Bag, key)) ==> fresh(store.Bag[key]) && len(store.Bag[key]) == len(content)
-//@   ensures[C17] !old(indom(store.Bag, key)) ==> (forall i mathint :: 0 <= i && i < len(content) ==> store.Bag[key][i] == old(content[i]))
+//@   ensures[C05,C17] err == nil && indom(store.Bag, key)
+//@   ensures[C05,C17] !old(indom(store.Bag, key)) ==> fresh(store.Bag[key]) && len(store.Bag[key]) == len(content)
+//@   ensures[C05,C17] !old(indom(store.Bag, key)) ==> (forall i mathint :: 0 <= i && i < len(content) ==> store.Bag[key][i] == old(content[i]))
 //@   ensures[C17] old(indom(store.Bag, key)) ==> store.Bag == old(store.Bag) && store.Bag[key] == old(store.Bag[key])
 //@   ensures[C17] forall k string :: k != key ==> indom(store.Bag, k) == old(indom(store.Bag, k)) && (indom(store.Bag, k) ==> store.Bag[k] == old(store.Bag[k]))
 //@   ensures[C17] forall i mathint :: 0 <= i && i < len(content) ==> content[i] == old(content[i])
@@ -25,13 +25,22 @@ package memstore
 //@ func (*Store).Get(ctx, key) (r, err)
 //@   requires store != nil
 //@   assigns store.Bag
-//@   ensures[C17] old(indom(store.Bag, key)) ==> err == nil && fresh(r) && len(r) == len(store.Bag[key]) && store.Bag == old(store.Bag)
-//@   ensures[C17] old(indom(store.Bag, key)) ==> (forall i mathint :: 0 <= i && i < len(r) ==> r[i] == store.Bag[key][i])
-//@   ensures[C17] !old(indom(store.Bag, key)) ==> err != nil && r == nil
+//@   ensures[C05,C17] old(indom(store.Bag, key)) ==> err == nil && fresh(r) && len(r) == len(store.Bag[key]) && store.Bag == old(store.Bag)
+//@   ensures[C05,C17] old(indom(store.Bag, key)) ==> (forall i mathint :: 0 <= i && i < len(r) ==> r[i] == store.Bag[key][i])
+//@   ensures[C05,C17] !old(indom(store.Bag, key)) ==> err != nil && r == nil
 //@   ensures[C17] forall k string :: indom(store.Bag, k) == old(indom(store.Bag, k)) && (indom(store.Bag, k) ==> store.Bag[k] == old(store.Bag[k]))
 
 //@ func (*Store).Peek(ctx, key) (r, cl, err)
 //@   requires store != nil
 //@   assigns nothing
-//@   ensures[C17] indom(store.Bag, key) ==> err == nil && r == store.Bag[key]
-//@   ensures[C17] !indom(store.Bag, key) ==> err != nil && r == nil
+//@   ensures[C05,C17] indom(store.Bag, key) ==> err == nil && r == store.Bag[key]
+//@   ensures[C05,C17] !indom(store.Bag, key) ==> err != nil && r == nil
+
+// The streaming read: a reader over exactly the stored bytes when the key is present (also when they are empty), an error otherwise.
+//@ func (*Store).GetStream(ctx, key) (r, err)
+//@   requires store != nil
+//@   assigns nothing
+//@   before NewReader assert[C05,C17] indom(store.Bag, key) && carg0 == store.Bag[key]
+//@   after NewReader let opened = true
+//@   ensures[C05,C17] indom(store.Bag, key) ==> err == nil && r != nil && defined(opened)
+//@   ensures[C05,C17] !indom(store.Bag, key) ==> err != nil && r == nil
